@@ -6,27 +6,45 @@ register_errback.  This driver observes what an application sees through
   iface "iter"    plain Request (handle_blockwise=False), ``async for n in request.observation``
   iface "bwiter"  Context.request default (BlockwiseRequest), ``async for``
   iface "bwcb"    BlockwiseRequest, register_callback / register_errback
+  iface "cb"      plain Request, register_callback / register_errback (what harness/drive.py observes;
+                  here for schedules that need this driver's other requests / token reservations)
 
 The iterator is consumed by a task that logs every item it is handed
 (``notif``) and how the iteration ends (``obsend``; cls "clean" for
 StopAsyncIteration).
 
 schedule = {
-  "iface":  "iter" | "bwiter" | "bwcb",
+  "iface":  "iter" | "bwiter" | "bwcb" | "cb",
   "con":    bool,                  request sent as CON / NON
-  "start":  "early" | "resp",      iteration starts when the request is created / after awaiting the response
+  "start":  "early" | "resp" | "late",   iteration starts when the request is created / after awaiting the
+                                   response / "start_delay" units after the response (what arrived in
+                                   between reaches the consumer only through the replay at registration)
   "delay":  units,                 time the consumer spends on every item before asking for the next
   "tuning", "mid0", "tok0",
-  "steps":  [{"at": units, "do": "rx", ...drive.py rx fields...} |
+  "steps":  [{"at": units, "do": "rx", ...drive.py rx fields..., "plen": n} |       datagram on the observation's token
              {"at": units, "do": "err"} |
-             {"at": units, "do": "burst", "rx": [rxspec, ...]}],
+             {"at": units, "do": "burst", "rx": [rxspec, ...]} |
+             {"at": units, "do": "submit", "q": k>=2, "con": bool, "reply": {...}|None} |   another (plain) request on the
+                                                                                  same context, same endpoint
+             {"at": units, "do": "burn", "n": N}],       N tokens are reserved and released (N short requests came and went)
+  "fetch":  [{"delay": units, "more": bool, "plen": n, "ty": "ACK"|"NON"|"CON"}, ...],
+  "fetch_default": plan | None,    for block requests beyond the list (None: never answered; default: at once)
   "horizon": units | None
 }
+
+Reactive peer: the k-th *new* request the client sends for a further block
+(Block2 number >= 1; BlockwiseRequest completing a block-wise notification or
+first response) is answered after fetch[k].delay with that block (more-flag and
+length as planned; piggy-backed if the request was CON and ty = "ACK");
+retransmissions are not answered again.  A side request is answered once
+according to its "reply" ({"delay", "ty", "code"}).
 
 A burst delivers its datagrams back to back the way a selector loop does when
 both are already in the socket buffer: exactly one round of ready callbacks
 runs between two reads.  Time unit and event records are those of
-harness/drive.py (uniform FIELDS)."""
+harness/drive.py (uniform FIELDS); `q` of a transmitted request is the
+application request it carries the token of (a token handed out twice: the one
+not yet on the wire), 0 for the block requests the library makes itself."""
 
 import asyncio
 import warnings
@@ -37,6 +55,7 @@ from .fakenet import sockaddr
 from .drive import FIELDS, units, code_class, err_class, build_msg, TUNING_KEYS
 
 Q = 1
+DEFAULT_FETCH = {"delay": 5, "more": False, "plen": 10, "ty": "ACK"}
 
 
 def run(sched):
@@ -44,6 +63,9 @@ def run(sched):
     events = []
     frozen = []
     reqs = {}
+    sent_first = {}  # q -> message ID of the first copy
+    seen_req_mids = set()
+    nfetch = [0]
     r_peer = sched.get("r", 1)
     iface = sched["iface"]
 
@@ -63,16 +85,21 @@ def run(sched):
                 return n
         return 0
 
-    def q_of(r, token):
-        d = reqs.get(Q)
-        if d is not None and d["msg"].token is not None and bytes(d["msg"].token) == bytes(token) and d["r"] == r:
-            return Q
-        return 0
+    def q_of(r, token, fresh=False):
+        cands = [q for q, d in reqs.items()
+                 if d["msg"].token is not None and bytes(d["msg"].token) == bytes(token) and d["r"] == r]
+        if not cands:
+            return 0
+        if fresh:
+            new = [q for q in cands if q not in sent_first]
+            if new:
+                return new[-1]
+        return cands[0]
 
     def fields(m):
         o = wire.opt(m, wire.OBSERVE)
         b2 = wire.opt(m, wire.BLOCK2)
-        return dict(
+        f = dict(
             ty=wire.TYPE_NAMES[m["type"]],
             mid=m["mid"],
             tok=m["token"].hex(),
@@ -82,6 +109,34 @@ def run(sched):
             plen=len(m["payload"]),
             b2=-1 if b2 is None else wire.from_uint(b2),
         )
+        if b2 is not None:
+            n_, m_, s_ = wire.unblock(b2)
+            f["b2n"], f["b2m"], f["b2s"] = n_, int(m_), s_
+        return f
+
+    state = {}
+
+    def inject(spec, rest=()):
+        spec = dict(spec)
+        if "plen" in spec:
+            spec["payload"] = bytes((i * 7 + 3) & 0xFF for i in range(spec.pop("plen")))
+        data = build_msg(spec, reqs, lambda k: (sched.get("mid0", 0) + 0x8000 + k) & 0xFFFF)
+        w.net.inject(state["sock"], data, sockaddr(spec.get("r", r_peer)))
+        if rest:
+            # the next datagram is read one round of ready callbacks later
+            w.loop.call_soon(inject, rest[0], rest[1:])
+
+    def answer(f, plan, extra, sep_mid):
+        """Scripted peer's response to the request datagram with fields f (sep_mid: message ID of a separate response)."""
+        ty = plan.get("ty", "ACK")
+        if ty == "ACK" and f["ty"] != "CON":
+            ty = "NON"
+        rx = {"ty": ty, "code": plan.get("code", 69), "tok": f["tok"], "mid": f["mid"] if ty == "ACK" else sep_mid}
+        rx.update(extra)
+        if ty != "ACK" and f["ty"] == "CON":
+            # the request's exchange is closed by an empty ACK before the separate response
+            w.loop.call_later(max(plan.get("delay", 5) - 1, 0) / 1024.0, inject, {"ty": "ACK", "code": 0, "mid": f["mid"]})
+        w.loop.call_later(plan.get("delay", 5) / 1024.0, inject, rx)
 
     def on_sent(rec):
         r = rnum(rec["to"])
@@ -91,7 +146,26 @@ def run(sched):
             ev("tx", r=r, ty="?", cls="unparsable")
             return
         f = fields(m)
-        ev("tx", r=r, q=q_of(r, m["token"]) if f["cls"] == "req" else 0, **f)
+        if f["cls"] != "req":
+            ev("tx", r=r, **f)
+            return
+        q = q_of(r, m["token"], fresh=True)
+        new = (r, f["mid"]) not in seen_req_mids
+        seen_req_mids.add((r, f["mid"]))
+        if q and q not in sent_first:
+            sent_first[q] = f["mid"]
+        ev("tx", r=r, q=q, **f)
+        if not new:
+            return
+        if q == 0 and f["b2"] >= 0 and f["b2n"] >= 1:
+            plans = sched.get("fetch", ())
+            plan = plans[nfetch[0]] if nfetch[0] < len(plans) else sched.get("fetch_default", DEFAULT_FETCH)
+            nfetch[0] += 1
+            if plan is None:
+                return
+            answer(f, plan, {"b2": [f["b2n"], bool(plan.get("more")), f["b2s"]], "plen": plan.get("plen", 10)}, 9100 + nfetch[0])
+        elif q >= 2 and reqs[q].get("reply"):
+            answer(f, reqs[q]["reply"], {"plen": 3}, 9600 + q)
 
     def on_read(data, src):
         r = rnum(src)
@@ -104,14 +178,6 @@ def run(sched):
         ev("rx", r=r, q=q_of(r, m["token"]) if f["cls"] == "resp" else 0, loc="u", **f)
 
     w.net.on_sent = on_sent
-    state = {}
-
-    def inject(spec, rest=()):
-        data = build_msg(spec, reqs, lambda k: (sched.get("mid0", 0) + 0x8000 + k) & 0xFFFF)
-        w.net.inject(state["sock"], data, sockaddr(spec.get("r", r_peer)))
-        if rest:
-            # the next datagram is read one round of ready callbacks later
-            w.loop.call_soon(inject, rest[0], rest[1:])
 
     async def main():
         from aiocoap import Message
@@ -143,8 +209,10 @@ def run(sched):
 
         w.loop.fake_readers[sock.fileno()] = (reader, cbargs)
 
-        T = type("VT", (TransportTuning,), {"reliability": bool(sched.get("con", True))})
-        m = Message(code=Code.GET, uri_path=["obs"], transport_tuning=T())
+        def tuning(con):
+            return type("VT", (TransportTuning,), {"reliability": bool(con)})()
+
+        m = Message(code=Code.GET, uri_path=["obs"], transport_tuning=tuning(sched.get("con", True)))
         m.opt.observe = 0
         m.remote = w.remote(ctx, r_peer)
         delay = sched.get("delay", 0)
@@ -153,11 +221,14 @@ def run(sched):
             ev("notif", q=Q, obs=-1 if msg.opt.observe is None else msg.opt.observe, code=int(msg.code), plen=len(msg.payload))
 
         async def consume(req):
-            if sched.get("start", "resp") == "resp":
+            start = sched.get("start", "resp")
+            if start in ("resp", "late"):
                 try:
                     await req.response
                 except Exception:
                     pass
+                if start == "late":
+                    await asyncio.sleep(sched.get("start_delay", 1024) / 1024.0)
             try:
                 async for n in req.observation:
                     log_item(n)
@@ -167,30 +238,30 @@ def run(sched):
             except Exception as e:
                 ev("obsend", q=Q, cls=err_class(e), x=type(e).__name__)
 
+        def done_cb(fut, q):
+            if fut.cancelled():
+                ev("done", q=q, cls="cancelled")
+            elif fut.exception() is not None:
+                ev("done", q=q, cls=err_class(fut.exception()), x=type(fut.exception()).__name__)
+            else:
+                res = fut.result()
+                ev("done", q=q, cls="resp", code=int(res.code), plen=len(res.payload))
+
         consumer = None
         last_at = 0
         started = False
+        burned = 0
         for step in sched["steps"]:
             if not started:
                 await w.loop.advance_to(sched.get("submit_at", 8) / 1024.0)
                 started = True
                 w.rand.fractions.clear()
                 w.rand.fractions.append(0.0)
-                ev("submit", r=r_peer, q=Q, con=bool(sched.get("con", True)), x=iface)
-                req = ctx.request(m, handle_blockwise=iface != "iter")
+                ev("submit", r=r_peer, q=Q, con=bool(sched.get("con", True)), x=iface, obs=0)
+                req = ctx.request(m, handle_blockwise=iface in ("bwiter", "bwcb"))
                 reqs[Q] = {"msg": m, "req": req, "r": r_peer}
-
-                def done_cb(fut):
-                    if fut.cancelled():
-                        ev("done", q=Q, cls="cancelled")
-                    elif fut.exception() is not None:
-                        ev("done", q=Q, cls=err_class(fut.exception()), x=type(fut.exception()).__name__)
-                    else:
-                        res = fut.result()
-                        ev("done", q=Q, cls="resp", code=int(res.code), plen=len(res.payload))
-
-                req.response.add_done_callback(done_cb)
-                if iface == "bwcb":
+                req.response.add_done_callback(lambda fut: done_cb(fut, Q))
+                if iface in ("bwcb", "cb"):
                     with warnings.catch_warnings():
                         warnings.simplefilter("ignore")
                         req.observation.register_callback(log_item)
@@ -208,6 +279,23 @@ def run(sched):
             elif do == "err":
                 ev("err", r=r_peer)
                 w.net.inject_error(sock, sockaddr(r_peer))
+            elif do == "submit":
+                q = step["q"]
+                w.rand.fractions.clear()
+                w.rand.fractions.append(0.0)
+                m2 = Message(code=Code.GET, uri_path=["side%d" % q], transport_tuning=tuning(step.get("con", True)))
+                m2.remote = w.remote(ctx, r_peer)
+                ev("submit", r=r_peer, q=q, con=bool(step.get("con", True)), x="side", obs=-1)
+                req2 = ctx.request(m2, handle_blockwise=False)
+                reqs[q] = {"msg": m2, "req": req2, "r": r_peer, "reply": step.get("reply")}
+                req2.response.add_done_callback(lambda fut, q=q: done_cb(fut, q))
+            elif do == "burn":
+                # N requests came and went: their tokens were reserved by the allocator and are free again
+                nt = getattr(ctx._verif["tman"], "next_token", None)
+                if nt is not None:
+                    for _ in range(step["n"]):
+                        nt()
+                    burned += step["n"]
             elif do == "wait":
                 pass
             else:
@@ -224,6 +312,8 @@ def run(sched):
             "loop_exceptions": [repr(c.get("exception") or c.get("message")) for c in w.loop.exceptions],
             "log_errors": [r.getMessage() for r in w.logcap.errors()],
             "consumer_finished": consumer.done() if consumer is not None else None,
+            "tokens_burned": burned,
+            "block_fetches_answered": nfetch[0],
         }
         if consumer is not None and not consumer.done():
             consumer.cancel()
